@@ -167,7 +167,7 @@ class Gen:
                 p = N("LITERAL", T(r.choice(["1", "2.5"])))
             else:
                 p = N("UNARY_OP", T("-"), N("LITERAL", T(r.choice(["1", "2.5"]))))
-        if allow_as and r.random() < 0.12 and (self.as_on_var or p[1] != "PATTERN_VARIABLE"):
+        if allow_as and r.random() < 0.12 and (self.as_on_var or p[1] not in ("PATTERN_VARIABLE", "UNARY_OP")):
             p = N("AS_PATTERN", p, T("as"), N("PATTERN_VARIABLE", self.name()))
         return p
 
